@@ -149,9 +149,16 @@ impl NamespaceActor {
                 return;
             }
             self.id_order_list.push(param.namespace_id.clone());
+            // a namespace created without a name is listed under its id - like a namespace that exists only
+            // because configs / services use it.  (An empty default made the name depend on whether the
+            // "in use" notice of the config / service index or the request reached this actor first.)
+            let namespace_name = match param.namespace_name {
+                Some(name) => name,
+                None => param.namespace_id.as_str().to_owned(),
+            };
             Namespace {
                 namespace_id: param.namespace_id,
-                namespace_name: param.namespace_name.unwrap_or_default(),
+                namespace_name,
                 flag: param_flag,
             }
         };
